@@ -85,7 +85,7 @@ class SrtParagraph:
     if self._end is None:
       raise ValueError("SRT paragraph end time code must be set.")
 
-    if self._end.to_seconds() <= self._begin.to_seconds():
+    if self._end.to_milliseconds() <= self._begin.to_milliseconds():
       raise ValueError("SRT paragraph end time code must be greater than the begin time code.")
 
     return "\n".join((str(self._id if sub_number is None else sub_number), str(self._begin) + " --> " + str(self._end), str(self._text))) \
